@@ -1499,6 +1499,42 @@ def rule_stateless(chk, prog):
         rs = {nm: hinline.inline_helpers(fn, hinline.class_resolver(prog, m, cls))
               for nm, fn in pf.methods(cls).items() if nm != "__init__"}
         targets.append((rel, m, cls, rs))
+    # one-shot iterators kept on the instance: zip / map / filter / enumerate / reversed / iter / a generator
+    # expression are exhausted by the first pass, so a routine that walks self.<attr> does nothing the second time
+    ONE_SHOT = {"zip", "map", "filter", "enumerate", "reversed", "iter"}
+    for rel, m, cls, routines in targets:
+        init = pf.methods(cls).get("__init__")
+        shots = {}
+        for n in (pf.walk_no_nested(init) if init is not None else []):
+            if isinstance(n, ast.Assign) and len(n.targets) == 1 and pf.is_self_attr(n.targets[0]):
+                v = n.value
+                if isinstance(v, ast.GeneratorExp) or (isinstance(v, ast.Call) and isinstance(v.func, ast.Name)
+                                                       and v.func.id in ONE_SHOT):
+                    shots[n.targets[0].attr] = n
+        for attr, node in shots.items():
+            for nm, fn in routines.items():
+                own = state_written(fn)
+                for n in pf.walk_no_nested(fn):
+                    if pf.is_self_attr(n, attr) and isinstance(n.ctx, ast.Load):
+                        top = n
+                        while pf.parent(top) is not fn and pf.parent(top) is not None:
+                            top = pf.parent(top)
+                        fresh = False
+                        for s0 in fn.body:
+                            if s0 is top:
+                                break
+                            if any(s0 is w for w in own.get(attr, [])):
+                                fresh = True
+                        inst = "%s.%s walks the one-shot iterator self.%s" % (cls.name, nm, attr)
+                        if fresh:
+                            chk.ok("stateless", inst + " after rebuilding it in the same call")
+                        else:
+                            chk.violation("stateless", rel, "%s.%s" % (cls.name, nm), "self.%s" % attr, n.lineno,
+                                          "__init__ binds self.%s to `%s`, a one-shot iterator; %s consumes it, so the "
+                                          "first call exhausts it and every later call iterates over nothing (the "
+                                          "result depends on the call history)" % (attr, pf.src(node.value)[:70], nm),
+                                          instance=inst)
+                        break
     for rel, m, cls, routines in targets:
         written = {}
         for nm, fn in routines.items():
@@ -1735,6 +1771,15 @@ def analyse(chk):
     ]
 
 
+def _one_shot_pairs(text):
+    a = "        self.feat_list = feat_list\n"
+    b = "        for i in range(self.nfeat):\n            self.feat_list[i].fill_deriv_(dfdx, dfdy[i], xdesc)"
+    if a not in text or b not in text:
+        return None
+    text = text.replace(a, a + "        self._deriv_pairs = zip(range(len(feat_list)), feat_list)\n", 1)
+    return text.replace(b, "        for i, feat in self._deriv_pairs:\n            feat.fill_deriv_(dfdx, dfdy[i], xdesc)", 1)
+
+
 def mutants(tree):
     M = Mutant
     v3i = "dfdx[i] += dfdy * self.gamma / (1 + self.gamma * x[i]) ** 2\n        dfdx[j] -="
@@ -1831,6 +1876,8 @@ def mutants(tree):
         M("_get_drho_and_dinh: d(inh)/d(rho) coefficient off below the tests' tolerance", FN,
           "dinh -= 8.0 / 3 * grad / (8 * CFC * rho ** (11.0 / 3)) * drho", "dinh -= 8.0000001 / 3 * grad / (8 * CFC * rho ** (11.0 / 3)) * drho",
           expect="deriv-symbolic"),
+        M("FeatureList.fill_derivs_ walks a zip of (row, map) pairs built once in __init__", TD, fn=_one_shot_pairs,
+          expect="stateless"),
         M("fill_vals_ writes every map into row 0", TD, "self.feat_list[i].fill_feat_(tdesc[i], xdesc)",
           "self.feat_list[i].fill_feat_(tdesc[0], xdesc)", count=2, expect="list-iter"),
     ]
